@@ -58,14 +58,19 @@ fn main() {
     let mut rep = String::new();
     let args: Vec<Vec<u8>> = std::env::args_os().map(|a| a.as_bytes().to_vec()).collect();
     rep.push_str(&format!("argv {}\n", args.iter().map(|a| hexenc(a)).collect::<Vec<_>>().join(",")));
-    let envs: Vec<String> = std::env::vars_os()
-        .map(|(k, v)| {
-            let mut kv = k.as_bytes().to_vec();
-            kv.push(b'=');
-            kv.extend_from_slice(v.as_bytes());
-            hexenc(&kv)
-        })
-        .collect();
+    // the raw environment block as the kernel handed it over (std::env::vars_os drops entries it cannot
+    // parse as name=value, e.g. one with an empty name)
+    let mut envs: Vec<String> = vec![];
+    unsafe {
+        extern "C" {
+            static environ: *const *const libc::c_char;
+        }
+        let mut i = 0;
+        while !environ.is_null() && !(*environ.add(i)).is_null() {
+            envs.push(hexenc(std::ffi::CStr::from_ptr(*environ.add(i)).to_bytes()));
+            i += 1;
+        }
+    }
     rep.push_str(&format!("env {}\n", if envs.is_empty() { "empty".to_string() } else { envs.join(",") }));
     unsafe {
         let p = libc::getauxval(libc::AT_EXECFN) as *const libc::c_char;
